@@ -63,8 +63,11 @@ def _configs(alpn):
     return _CFG[alpn]
 
 
-def connected_pair(alpn, logger):
-    """-> (client, server, now): handshake completed and confirmed on both sides."""
+def connected_pair(alpn, logger, confirmed=True):
+    """-> (client, server, now): handshake completed and confirmed on both sides.
+    confirmed=False: the server datagrams carrying HANDSHAKE_DONE are lost, so the client
+    has completed the handshake but not confirmed it (Initial/Handshake keys still alive;
+    a server confirms as soon as it completes, so only a client can be in that state)."""
     seams.install()
     cc, sc = _configs(alpn)
     cc, sc = copy.copy(cc), copy.copy(sc)
@@ -83,11 +86,13 @@ def connected_pair(alpn, logger):
         for d, _a in client.datagrams_to_send(now):
             server.receive_datagram(d, CLIENT_ADDR, now)
             n += 1
+        lost = not confirmed and server._handshake_complete
         for d, _a in server.datagrams_to_send(now):
-            client.receive_datagram(d, SERVER_ADDR, now)
+            if not lost:
+                client.receive_datagram(d, SERVER_ADDR, now)
             n += 1
         now += 0.001
-        if n == 0:
+        if n == 0 or lost:
             break
     for q in (client, server):
         done = False
@@ -101,6 +106,9 @@ def connected_pair(alpn, logger):
                 raise core.HarnessError("handshake failed: %r" % (e,))
         if not done:
             raise core.HarnessError("handshake did not complete")
+    if client._handshake_confirmed != confirmed or not server._handshake_confirmed:
+        raise core.HarnessError("pair is not in the requested handshake state (client confirmed=%r)"
+                                % client._handshake_confirmed)
     return client, server, now
 
 
@@ -119,9 +127,12 @@ def innermost(exc):
 class World:
     N_CLIENT_REQUESTS = 8
 
-    def __init__(self, proto, role, logger):
-        self.proto, self.role, self.logger = proto, role, logger
-        client, server, self.now = connected_pair("h3" if proto == "h3" else "hq-interop", logger)
+    def __init__(self, proto, role, logger, handshake="confirmed"):
+        self.proto, self.role, self.logger, self.handshake = proto, role, logger, handshake
+        if handshake != "confirmed" and role != "client":
+            raise core.HarnessError("only a client can be complete but unconfirmed")
+        client, server, self.now = connected_pair("h3" if proto == "h3" else "hq-interop", logger,
+                                                 confirmed=handshake == "confirmed")
         self.quic, self.peer = (server, client) if role == "server" else (client, server)
         if proto == "h3":
             self.h = H3Connection(self.quic)
@@ -698,6 +709,11 @@ def prefix_messages(proto, role, prefix):
 PREFIXES = ("none", "settings", "request", "blocked")
 
 
+def norm_config(config):
+    config = tuple(config)
+    return config if len(config) == 5 else config + ("confirmed",)
+
+
 class PrefixRaised(Exception):
     def __init__(self, world, msg):
         self.world, self.msg = world, msg
@@ -705,8 +721,8 @@ class PrefixRaised(Exception):
 
 def build_world(config, history, trace=None):
     """Fresh pair + layer, prefix and history replayed.  -> World (raised/closed possible)."""
-    proto, role, logger, prefix = config
-    w = World(proto, role, logger)
+    proto, role, logger, prefix, handshake = norm_config(config)
+    w = World(proto, role, logger, handshake)
     w.trace = trace
     for m in prefix_messages(proto, role, prefix):
         if trace:
@@ -740,9 +756,9 @@ def judge(w, msg, trace=None):
         exc = w.raised
         sig = {"monitor": "handle_event_raises", "exc": type(exc).__name__,
                "where": innermost(exc), "entry": entry, "input": msg["cls"]}
-        what = "%s raised %s (%s) in %s on %s [%s side, logger %s]" % (
+        what = "%s raised %s (%s) in %s on %s [%s side, logger %s, handshake %s]" % (
             entry, type(exc).__name__, exc, sig["where"], msg["label"], w.role,
-            "on" if w.logger else "off")
+            "on" if w.logger else "off", w.handshake)
         return ("exc", type(exc).__name__, sig["where"]), (sig, what)
     ce = w.closed()
     if ce is None:
@@ -790,12 +806,16 @@ def judge(w, msg, trace=None):
     if trace:
         trace("  closing datagrams: %d; peer saw %r" % (len(dgrams), seen and (
             seen.error_code, seen.reason_phrase[:60])))
-    if not dgrams or seen is None or seen.error_code != code:
+    # RFC 9000 10.2.3: in Initial/Handshake packets an application close is converted to the
+    # transport code APPLICATION_ERROR; an unconfirmed client also sends those packets
+    acceptable = (code,) if w.handshake == "confirmed" else (code, 0xC)
+    if not dgrams or seen is None or seen.error_code not in acceptable:
         fits = len(ce.reason_phrase.encode("utf8", "replace")) + 64 <= w.quic._max_datagram_size
         sig = {"monitor": "closing_packet_not_delivered", "entry": "QuicConnection.datagrams_to_send",
                "reason": "fits-a-packet" if fits else "longer-than-a-packet", "input": msg["cls"]}
-        what = ("after close(0x%x) on %s: %d datagrams emitted, peer saw %r"
-                % (code, msg["label"], len(dgrams), seen))
+        what = ("after close(0x%x, reason of %d characters) on %s [%s side, handshake %s]: %d "
+                "datagrams emitted, peer saw %r"
+                % (code, reason_len, msg["label"], w.role, w.handshake, len(dgrams), seen))
         return ("closed", int(code), "not-delivered"), (sig, what)
     # once done, the layer ignores further events
     try:
@@ -806,7 +826,8 @@ def judge(w, msg, trace=None):
         return ("closed", int(code), "raises-after"), (sig, "handle_event raised %r after close" % exc)
     if out != []:
         raise core.HarnessError("events after close: %r" % (out,))
-    return ("closed", int(code), "long" if reason_len > 500 else "short"), None
+    return ("closed", int(code), "long" if reason_len > 500 else "short",
+            "converted" if seen.error_code != code else "as-is"), None
 
 
 # ------------------------------------------------------------------ workers
@@ -913,7 +934,7 @@ def work(item):
     """item = (config, history, [(menu index, chunking), ...], tier, level, depth)
     -> list of (index, chunking, key, outcome, violation, successor indices)."""
     config, history, transitions, tier, level, depth = item
-    proto, role, logger, prefix = config
+    proto, role, logger, prefix, handshake = norm_config(config)
     ms, byl = menu_for(proto, role)
     res = []
     for idx, chunking in transitions:
@@ -953,12 +974,16 @@ def configs_for(proto, tier):
     out = []
     if proto == "h0":
         for role in ("server", "client"):
-            out.append(("h0", role, False, "none"))
+            out.append(("h0", role, False, "none", "confirmed"))
         return out
     for role in ("server", "client"):
         for logger in (False, True):
             for prefix in PREFIXES:
-                out.append(("h3", role, logger, prefix))
+                out.append(("h3", role, logger, prefix, "confirmed"))
+    # client whose HANDSHAKE_DONE was lost: the close goes out in Handshake and 1-RTT packets
+    # (first level only; logger off)
+    for prefix in PREFIXES:
+        out.append(("h3", "client", False, prefix, "unconfirmed"))
     return out
 
 
@@ -968,7 +993,8 @@ def root_indices(proto, cfg, tier):
     for i, m in enumerate(ms):
         if tier == "quick" and m["cls"].endswith(":raw-instruction") and m["label"][-1] in "135":
             continue  # quick: tails 0, 2, 4 (empty, ff, ff*11) of the raw QPACK sweep
-        if m["cls"].endswith(":raw-instruction") and (cfg[2] or cfg[3] not in ("settings", "blocked")):
+        if m["cls"].endswith(":raw-instruction") and (
+                cfg[2] or cfg[3] not in ("settings", "blocked") or cfg[4] != "confirmed"):
             # the raw QPACK instruction sweep runs after 'settings' and 'blocked' only, without
             # logger (that path logs nothing beyond the stream type)
             continue
@@ -1087,7 +1113,7 @@ def run(ctx):
         "a freshly connected real QuicConnection pair per transition: every menu message (frame "
         "types x length lies x payload variants x stream kinds, raw QPACK instructions, "
         "datagrams) x chunkings {whole, byte-wise + lone FIN, split inside every varint} after "
-        "prefixes {none, SETTINGS, +request, +blocked request}, roles {server, client}, qlog "
+        "prefixes {none, SETTINGS, +request, +blocked request}, roles {server, client}, client also with an unconfirmed handshake (first level), qlog "
         "{off, on}; oracle: handle_event returns a list; after a close the code is an H3 "
         "ErrorCode, datagrams_to_send returns and the peer decrypts CONNECTION_CLOSE with it"
     )
@@ -1115,10 +1141,10 @@ def run(ctx):
 
 def replay(ctx, obj):
     rp = obj["replay"]
-    config = tuple(rp["config"])
-    proto, role, logger, prefix = config
+    config = norm_config(rp["config"])
+    proto, role, logger, prefix, handshake = config
     label, chunking = rp["last"]
-    print("config: proto=%s role=%s logger=%s prefix=%s" % config)
+    print("config: proto=%s role=%s logger=%s prefix=%s handshake=%s" % config)
     try:
         w = build_world(config, [tuple(x) for x in rp["history"]], trace=print)
     except PrefixRaised as pr:
